@@ -47,6 +47,16 @@ pub fn run() -> Report {
         }
         cb
     };
+    // the same two logical chains for every coin (how a directory is stored has nothing to do with the coin it belongs to)
+    let big_of = |c: &'static refmodel::coins::Coin| {
+        let mut cb = ChainBuilder::with_genesis(c);
+        for (k, sz) in [40_000usize, 100_000, 300].iter().enumerate() {
+            let tx = Tx { version: 1, segwit: false, inputs: vec![TxIn::spend([0xee; 32], k as u32)], outputs: vec![TxOut { value: 5, script: vec![0x51; *sz] }, refmodel::chain::pay(9, 77)], locktime: 0, wide: 0 };
+            cb.push(vec![tx]);
+        }
+        cb
+    };
+    let per_coin: Vec<(&'static refmodel::coins::Coin, ChainBuilder, ChainBuilder)> = refmodel::coins::COINS.iter().map(|c| (c, dependent_chain(c, 0, n), big_of(c))).collect();
     #[derive(Clone)]
     struct Case {
         big: bool,
@@ -84,7 +94,7 @@ pub fn run() -> Report {
             cases.push(Case { big: false, layout: layout.clone(), key, cbs: vec!["csvdump", "unspentcsvdump"] });
         }
     }
-    rep.rule = format!("all arrangements of {} blocks into <=3 files x gaps (none / 13 odd garbage bytes) x keys of length 1,2,3,7,8,9,64, 8 zero bytes, 8-byte keys with one zero byte / one non-zero byte at either end / all 0xff, XOR applied from file offset 0, every other case with --verify; blocks of 40 KiB and 100 KiB in forward / backward / mixed order; sparse offsets beyond 4 GiB; csvdump for every case and all five callbacks for every 6th: output must be identical to the plaintext directory's (differential oracle; the plaintext csvdump run is additionally compared with the model once per layout); non-trivial = distinct (layout, key)", n);
+    rep.rule = format!("all arrangements of {} blocks into <=3 files x gaps (none / 13 odd garbage bytes) x keys of length 1,2,3,7,8,9,64, 8 zero bytes, 8-byte keys with one zero byte / one non-zero byte at either end / all 0xff, XOR applied from file offset 0, every other case with --verify, the coin rotating over all 8 (bitcoin for a third of the cases); blocks of 40 KiB and 100 KiB in forward / backward / mixed order; sparse offsets beyond 4 GiB; csvdump for every case and all five callbacks for every 6th: output must be identical to the plaintext directory's (differential oracle; the plaintext csvdump run is additionally compared with the model once per layout); non-trivial = distinct (layout, key)", n);
     rep.bound = json!({"blocks": n, "cases": cases.len(), "keys": keys().len()});
     rep.not_covered = vec!["empty xor.dat (outside the statement)".into()];
     let root = refmodel::world::scratch_root();
@@ -96,8 +106,11 @@ pub fn run() -> Report {
             // every other case with --verify: the checks it adds must see the de-obfuscated bytes too
             let verify = i % 2 == 1;
             let verb = ((i / 2) % 4) as u8;
-            let chain = if c.big { &big } else { &small };
-            let mut plain_world = build_world(btc, &chain.blocks, 0, &c.layout);
+            // the coin by case: bitcoin for the first of every three, the other seven in turn
+            let (cn, csmall, cbig) = if i % 3 == 0 { &per_coin[0] } else { &per_coin[1 + (i / 3) % (per_coin.len() - 1)] };
+            acc.count(&format!("coin:{}", cn.name), 1);
+            let chain = if c.big { cbig } else { csmall };
+            let mut plain_world = build_world(cn, &chain.blocks, 0, &c.layout);
             // every fourth case: other key files within reach - the home directory (= the data directory here) holds a
             // Bitcoin Core default blocks folder with a key of its own, there is a key one level up, in a sub-folder, and
             // under look-alike names; only <data dir>/xor.dat says how THIS directory is stored
@@ -127,7 +140,7 @@ pub fn run() -> Report {
             }
             let mut plain_obs = Vec::new();
             for cbn in &c.cbs {
-                let mut ps = RunSpec::new("bitcoin", cbn).verify(verify);
+                let mut ps = RunSpec::new(cn.name, cbn).verify(verify);
                 if !matches!(*cbn, "simplestats" | "opreturn") {
                     ps.verbosity = verb;
                 }
@@ -158,7 +171,7 @@ pub fn run() -> Report {
                 }
             }
             for (i, cbn) in c.cbs.iter().enumerate() {
-                let mut spec = RunSpec::new("bitcoin", cbn).verify(verify);
+                let mut spec = RunSpec::new(cn.name, cbn).verify(verify);
                 if !matches!(*cbn, "simplestats" | "opreturn") {
                     spec.verbosity = verb;
                 }
